@@ -30,7 +30,7 @@ Judge(c) ==
   ELSE LET src == Layers(c.doc)
            out == c.out.layers
            S(p) == SrcStack(src, p)
-           Robust(p) == \A q \in NbrsR(p, BandR(c.doc.view)) : S(q) = S(p)
+           Robust(p) == LET cv == SrcCover(src, p) IN \A q \in NbrsR(p, BandR(c.doc.view)) : SrcCover(src, q) = cv
            bad == { p \in Samples(c.doc.vb) : OutStack(out, p) # S(p) /\ Robust(p) }
        IN IF bad = {} THEN (IF src = <<>> THEN "ok:empty" ELSE "ok:render")
           ELSE LET p == CHOOSE p \in bad : TRUE
